@@ -65,6 +65,7 @@ func runSupervisor(c *Ctx, pkg string) {
 	s.start(start, exec)
 	s.execute(exec, start)
 	s.api(start, exec)
+	s.retryOption()
 	if pkg == "routine" {
 		s.routineExtras()
 	}
@@ -202,6 +203,15 @@ func (s *sup) execute(exec, start *core.FuncDecl) {
 			if ev.Kind == core.KDefer && ev.Callee == nil && ev.FunVal.Kind != core.VFuncLit {
 				if _, isIdx := unparen(ev.Call.Fun).(*ast.IndexExpr); isIdx || strings.Contains(core.ExprString(ev.Call.Fun), "exitedCbs") {
 					a.requireGuard("R12", name+"/exit-callbacks", g, i, false, current, "scheduling the exit callbacks")
+				}
+			}
+			// a client callback that is handed an error after the routine returned (the exit callbacks,
+			// deferred or called, wherever they are called from) is handed the routine's own result
+			if (ev.Kind == core.KDefer || ev.Kind == core.KCall) && ev.Callee == nil && ev.Builtin == "" && ev.FunVal.Kind == core.VUnknown && userCall >= 0 && i > userCall && len(ev.Call.Args) == 1 && !callsField(ev, s.f("routine")) {
+				if t := ev.Frame.Info().TypeOf(ev.Call.Args[0]); t != nil && isErrorType(t) {
+					a.note("R12", name+"/exit-callbacks/argument", ev.Pos, userErr == nil || tampered.IsValid() || identVar(ev.Call.Args[0], ev.Frame) != userErr,
+						"the exit callbacks are handed the error the routine returned",
+						"an exit callback is handed "+core.ExprString(ev.Call.Args[0])+", not the value the routine returned: a field read after the critical section can already belong to the next attempt", p)
 				}
 			}
 			if assignsField(ev, s.f("deferRetry"), "") && ev.Rhs != nil && !isNilExpr(ev.Rhs, ev.Frame) {
@@ -701,7 +711,30 @@ func (s *sup) keyedExtras() {
 		c.Walk("R16", &core.Config{}, core.Entry{Decl: d}, func(p *core.Path) {
 			marked := false
 			iter := false
-			for _, ev := range p.Events {
+			removed := -1
+			for i, ev := range p.Events {
+				if ev.Kind == core.KCall && ev.Callee != nil && core.FuncName(ev.Callee) == "keyed.(*Keyed).RemoveKey" {
+					removed = i
+				}
+				// the wrapper removes the key from the underlying Keyed on every path, and what it reports
+				// is what the Keyed (where a key lives on during a release delay) reports
+				if ev.Kind == core.KReturn && ev.Frame.Parent == nil && len(ev.Results) == 1 {
+					okRet := false
+					if removed >= 0 {
+						if unparen(ev.Results[0]) == ast.Expr(p.Events[removed].Call) {
+							okRet = true
+						} else if v := identVar(ev.Results[0], ev.Frame); v != nil {
+							for _, b := range p.Events[removed:i] {
+								if b.Kind == core.KAssign && b.Rhs != nil && unparen(b.Rhs) == ast.Expr(p.Events[removed].Call) && identVar(b.Lhs, b.Frame) == v {
+									okRet = true
+								}
+							}
+						}
+					}
+					a.note("R12", name+"/removes-and-reports-underlying-key", ev.Pos, !okRet,
+						"every path removes the key from the underlying Keyed and returns what that removal reported",
+						"a path of RemoveKey returns without removing the key from the underlying Keyed, or reports something other than that removal's result: a key kept alive by a release delay stays in the set (and is reported absent) although its removal was asked for", p)
+				}
 				if ev.Kind == core.KLoop {
 					iter = true
 				}
@@ -843,5 +876,47 @@ func runGbackoff(c *Ctx) {
 	}
 	if n == 0 {
 		c.MissingAnchor("R12", "backoff.construct* functions")
+	}
+}
+
+// retryOption: an option constructor that builds a (stateful) back-off from a configuration does so
+// inside the function that is applied to a container — once per container — and not once when the
+// option value is made: containers that share an option must not share one back-off state.
+func (s *sup) retryOption() {
+	c, a := s.c, s.a
+	for _, d := range pkgDecls(c, s.pkg) {
+		d := d
+		if !d.Obj.Exported() || d.Decl.Recv != nil {
+			continue
+		}
+		var stack []ast.Node
+		ast.Inspect(d.Decl.Body, func(n ast.Node) bool {
+			if n == nil {
+				stack = stack[:len(stack)-1]
+				return true
+			}
+			stack = append(stack, n)
+			call, ok := n.(*ast.CallExpr)
+			if !ok {
+				return true
+			}
+			if _, isConstruct := callSel(call, "Construct"); !isConstruct {
+				return true
+			}
+			f, _ := typeutil.Callee(d.Pkg.TypesInfo, call).(*types.Func)
+			if f == nil || f.Pkg() == nil || !strings.HasSuffix(f.Pkg().Path(), "/backoff") {
+				return true
+			}
+			inLit := false
+			for _, x := range stack {
+				if _, ok := x.(*ast.FuncLit); ok {
+					inLit = true
+				}
+			}
+			a.note("R12", core.FuncName(d.Obj)+"/backoff-constructed-per-container", call.Pos(), !inLit,
+				"the back-off is constructed inside the option function, once per container it is applied to",
+				"the back-off is constructed when the option value is made: every container the option is applied to shares one back-off state, so one routine's failures and successes change another's retry interval", nil)
+			return true
+		})
 	}
 }
